@@ -4,6 +4,7 @@
 use vstd::prelude::*;
 use vstd::std_specs::hash::*;
 use std::collections::HashMap;
+use std::collections::hash_map::Entry;
 use std::sync::{RwLock, RwLockReadGuard, RwLockWriteGuard, PoisonError, LockResult};
 use std::sync::atomic::Ordering;
 use std::ops::{Deref, DerefMut};
@@ -118,6 +119,14 @@ impl DistributionBuilder {
     pub fn get_distribution(&self, name: &str) -> (r: Distribution) ensures r == self.fresh_for(name@) { unimplemented!() }
 }
 #[verifier::external_body] pub struct SharedString { _p: [u8; 0] }
+impl SharedString {
+    // Deref<Target = str> API a rewritten body may use (uninterpreted results)
+    pub uninterp spec fn text(&self) -> Seq<char>;
+    #[verifier::external_body] pub fn trim(&self) -> (r: &str) { unimplemented!() }
+    #[verifier::external_body] pub fn is_empty(&self) -> (r: bool) ensures r == (self.text().len() == 0) { unimplemented!() }
+    #[verifier::external_body] pub fn as_ref(&self) -> (r: &str) ensures r@ == self.text() { unimplemented!() }
+    #[verifier::external_body] pub fn len(&self) -> (r: usize) { unimplemented!() }
+}
 pub type Unit = RUnit;
 #[verifier::external_body] pub struct GenerationalAtomicStorage { _p: [u8; 0] }
 #[verifier::external_body]
